@@ -31,6 +31,35 @@ def run(ctx):
     ctx.step(arrive, ctx)
     ctx.step(common.raii_only, ctx, "C09.raii", ["Barrier.hpp"], floor=2)
     ctx.step(initial, ctx)
+    ctx.step(participants, ctx)
+
+
+def participants(ctx):
+    """count_ is "arrivals still missing in this generation", threshold_ "arrivals per generation": whoever changes the
+    number of participants changes both, on every path - otherwise the running generation is released by the wrong
+    number of arrivals (too early: somebody is let through before everybody arrived; too late: it never opens)"""
+    from ..guards import effective_access
+    rid = "C09.participants"
+    ctx.rule(rid, "an operation that changes threshold_ adjusts count_ on every path as well", floor=1)
+    for f, top in class_functions(ctx.fb, CLS):
+        if top.kind in ("ctor", "dtor") or f.is_lambda:
+            continue
+        def writes(field):
+            out = []
+            for st in field_refs(f, CLS):
+                if st["m"]["name"] == field and effective_access(ctx.eng, f, st)[0] not in READ_KINDS and f.pos_of(st):
+                    out.append(st)
+            return out
+        tw = writes("threshold_")
+        if not tw:
+            continue
+        cw = [tuple(f.pos_of(s)) for s in writes("count_")]
+        for w in tw:
+            wp = tuple(f.pos_of(w))
+            ok = bool(cw) and (any(f.dominates(c, wp) for c in cw) or not f.exits_avoiding(wp, cw))
+            ctx.ob(rid, ok, f.loc(w), "%s changes threshold_ and count_ together" % top.name,
+                   "" if ok else "a path changes the number of participants without adjusting the arrivals still missing in the "
+                   "running generation: that generation is completed by the wrong number of arrivals", fn=top.label, inst=f.qname)
 
 
 def _writes(f, field):
